@@ -1,5 +1,7 @@
 rc_target("c20_threads", flavour="sched", wrap=True)
-plan("C20", [T("c20_threads", 3000, 25000)], min_nt=100,
+# second engine: free-running threads under ThreadSanitizer (plain unlocked accesses give the controlled scheduler no decision point)
+rc_target("c20_race", flavour="tsan", race_oracle=True)
+plan("C20", [T("c20_threads", 3000, 25000), T("c20_race", 2500, 20000, 3, 8)], min_nt=100,
      rule="thread trees x schedules under the controlled scheduler with a virtual clock",
      technique="property-based testing over (thread tree, schedule) pairs: controlled scheduler, event-log oracle, join accounting in the scheduler's thread table",
      level_text="Generated search over launch/finish/join interleavings: the library's real thread wrapper, at-exit chain and managed-thread "
